@@ -131,6 +131,10 @@ func registerVerifAPI(e *Engine) {
 		in.events = append(in.events, &event{name: a[0].(Str).S, fn: a[1]})
 		return nil
 	})
+	v("PreemptPoint", func(in *Interp, fr *frame, fn *ssa.Function, a []Val) Val {
+		in.preemptPoint()
+		return nil
+	})
 	v("PreemptBudget", func(in *Interp, fr *frame, fn *ssa.Function, a []Val) Val {
 		in.preemptBudget = int(in.concInt(a[0]))
 		return nil
